@@ -60,8 +60,13 @@ pub fn analyze_bounds(
     domain: &IndexMap<String, DomainVariable>,
     constraints: &[Constraint],
 ) -> DerivedBounds {
+    // same normalisation as `Linearizer::linearize` applies before the analysis
+    let constraints = constraints
+        .iter()
+        .map(crate::transformers::linearizer::verif_normalized_for_bounds)
+        .collect::<Vec<_>>();
     DerivedBounds {
-        analyzer: BoundsAnalyzer::analyze(domain, constraints),
+        analyzer: BoundsAnalyzer::analyze(domain, &constraints),
     }
 }
 
